@@ -46,12 +46,17 @@ FM(t) == CASE t = "f1" -> <<"1", "1">> [] t = "f2" -> <<"2", "1">> [] t = "f3" -
            [] OTHER -> <<"-", "-">>
 \* a suppression's fields match when every key it names has the same value in the feedback
 FldMatch(sf, ff) == \A i \in 1..2 : FM(sf)[i] = "-" \/ FM(sf)[i] = FM(ff)[i]
+\* recorded traces carry explicit key/value pairs (kv) and the lower-cased label (llabel) instead of tokens
+FldMatchG(s, f) == IF "kv" \in DOMAIN s
+                   THEN \A i \in 1..Len(s.kv) : \E j \in 1..Len(f.kv) : f.kv[j] = s.kv[i]
+                   ELSE FldMatch(s.fld, f.flds)
+LabelLower(f) == IF "llabel" \in DOMAIN f THEN f.llabel ELSE f.label
 Suppressed(f, S) == \E s \in S :
     \/ s.k = "cat" /\ s.cat = f.cat
-    \/ s.k = "catlabel" /\ s.cat = f.cat /\ s.label = f.label
-    \/ s.k = "catlabelf" /\ s.cat = f.cat /\ s.label = f.label /\ FldMatch(s.fld, f.flds)
+    \/ s.k = "catlabel" /\ s.cat = f.cat /\ s.label = LabelLower(f)          \* category-scoped labels compare lower-cased
+    \/ s.k = "catlabelf" /\ s.cat = f.cat /\ s.label = LabelLower(f) /\ FldMatchG(s, f)
     \/ s.k = "label" /\ s.label = f.label
-    \/ s.k = "labelf" /\ s.label = f.label /\ FldMatch(s.fld, f.flds)
+    \/ s.k = "labelf" /\ s.label = f.label /\ FldMatchG(s, f)
 
 Eligible(f, S) == f.trig /\ ~f.muted /\ f.kind # "Compliment" /\ ~Suppressed(f, S)
 
